@@ -136,6 +136,22 @@ NaturalLit(t) ==
   ELSE [k |-> "none", t |-> t]
 HasNaturalLit(t) == NaturalLit(t).k # "none"
 
+\* ---- Date, Time, DateTime (well-formed values only) -------------------------------------------------
+\* tokens: "d<S>" the datetime object the scalar stands for, "s<S>" its text; malformed inputs: other text,
+\* text of another date scalar, numbers, booleans, containers
+DateScalars == {"Date", "Time", "DateTime"}
+DTok(s) == "d" \o s
+STok(s) == "s" \o s
+DateToks == {DTok(s) : s \in DateScalars} \cup {STok(s) : s \in DateScalars} \cup {"sTXT", "sDATEBAD", "iS", "bT", "LIST"}
+OutDate(s, t) == IF t = DTok(s) THEN {STok(s)} ELSE IF t \in {DTok(x) : x \in DateScalars} THEN {ANYSTR, FAIL} ELSE {FAIL}
+InDate(s, t) == IF t = STok(s) THEN {DTok(s)} ELSE {FAIL}
+LitDate(s, l) == IF l.k = "StringValue" /\ l.t = STok(s) THEN {DTok(s)} ELSE {FAIL}
+LawDates == \A s \in DateScalars :
+   /\ \A r \in OutDate(s, DTok(s)) : r # FAIL /\ InDate(s, r) = {DTok(s)}           \* idempotence through the wire form
+   /\ \A r \in InDate(s, STok(s)) : OutDate(s, r) = {STok(s)}
+   /\ LitDate(s, [k |-> "StringValue", t |-> STok(s)]) = InDate(s, STok(s))           \* literal = variable
+   /\ \A t \in DateToks \ {STok(s)} : InDate(s, t) = {FAIL}                         \* nothing else is accepted
+
 \* ---- wire types and "denotes" --------------------------------------------------------------
 ResultToks == Tokens \cup {"s2P53", "sHUGE"}
 WireOK(s, r) ==
